@@ -79,23 +79,29 @@ Definition e_dict (v : val) : val :=
     let (s, xs) := dict_run dict_init os in
     VL [VL (map v_res xs); VL (map (fun id => v_view (dict_view s id)) ids)]).
 
-Definition e_redis (v : val) : val :=
-  with_ops v (fun os ids =>
-    let (s, xs) := redis_run redis_init os in
-    VL [VL (map v_res xs); VL (map (fun id => v_view (redis_view s id)) ids);
-        VL (map (fun p => VL [VN (fst p); VN (snd p)]) (r_queue s))]).
-
-(* load() without consuming the announcements first: VL [VL ops; VL ids] *)
-Fixpoint redis_run_raw (s : rstate) (ops : list op) : rstate * list res :=
-  match ops with
-  | [] => (s, [])
-  | o :: ops' => let (s1, x) := run rexec (redis_prog o) s in
-                 let (s2, xs) := redis_run_raw s1 ops' in (s2, x :: xs)
+(* redis: the operation list may contain VL [VN 7] = wait() *)
+Fixpoint ritems_v (l : list val) : option (list ritem) :=
+  match l with
+  | [] => Some []
+  | VL [VN 7] :: l' => match ritems_v l' with Some its => Some (RIwait :: its) | None => None end
+  | v :: l' => match op_v v, ritems_v l' with
+               | Some o, Some its => Some (RIop o :: its)
+               | _, _ => None
+               end
   end.
-Definition e_redis_raw (v : val) : val :=
-  with_ops v (fun os ids =>
-    let (s, xs) := redis_run_raw redis_init os in
-    VL [VL (map v_res xs); VL (map (fun id => v_view (redis_view s id)) ids)]).
+
+Definition e_redis (v : val) : val :=
+  match v with
+  | VL [VL ops; ids] =>
+      match ritems_v ops with
+      | Some its =>
+          let (s, xs) := redis_run_items redis_init its in
+          VL [VL (map v_res xs); VL (map (fun id => v_view (redis_view s id)) (nums_v ids));
+              VL (map (fun p => VL [VN (fst p); VN (snd p)]) (r_queue s))]
+      | None => verr
+      end
+  | _ => verr
+  end.
 
 (* input: VL [VL ops; VL ids; VN mq; VL fails] *)
 Definition e_cloud (v : val) : val :=
@@ -212,5 +218,5 @@ Definition e_cloud_sched (v : val) : val :=
 
 Definition entries : list SV.lib.Val.entry :=
   [("c15_ref"%string, e_ref); ("c15_dict"%string, e_dict); ("c15_redis"%string, e_redis);
-   ("c15_redis_raw"%string, e_redis_raw); ("c15_cloud"%string, e_cloud); ("c15_rounds"%string, e_rounds);
+   ("c15_cloud"%string, e_cloud); ("c15_rounds"%string, e_rounds);
    ("c15_redis_sched"%string, e_redis_sched); ("c15_cloud_sched"%string, e_cloud_sched)].
